@@ -319,7 +319,7 @@ def check(ctx) -> Result:
     if ref_order != "?":
       res.add(ref_order == orders["LI"][0], "K-order-choi-factors", "choi_from_unitary vs estimators", cu0.site(rets[0]), cu0.qualname, f"reference and estimators use {ref_order}",
             f"choi_from_unitary vectorises the unitary row-major, i.e. in {ref_order} factor order, while the estimators reconstruct in {orders['LI'][0]} order: for a non-symmetric unitary the linear-inversion result equals choi_from_unitary(U.T), not choi_from_unitary(U)",
-            construct=src(rets[0].value))
+            construct=f"reference {ref_order} estimators {orders['LI'][0]} :: " + src(rets[0].value))
     conj_conventions(ctx, res, li, mle_cls, cu)
     # ---- experiment construction
     PTc = ctx.ix.module(PT).classes.get("ProcessTomography")
